@@ -1185,7 +1185,8 @@ ABSL_ATTRIBUTE_NOINLINE void ConcurrentTransientHashSet<T, H, E>::reserve(
 template <typename T, typename H, typename E>
 ABSL_ATTRIBUTE_NOINLINE size_t ConcurrentTransientHashSet<T, H, E>::total_size(
     TableNode* node) const noexcept {
-  auto sum = _head.table.bucket_count();
+  // 默认构造的头节点是占位表，不持有任何元素，不能按满表计入
+  auto sum = _head.table.size();
   while (true) {
     auto next = node->next.load(::std::memory_order_acquire);
     if (next == nullptr) {
